@@ -46,7 +46,16 @@ import (
 
 type hT struct{}
 
-func (hT) Gosched() { runtime.Gosched() }
+func (hT) Gosched()                        { runtime.Gosched() }
+func (hT) Send(ch chan int, x int)         { ch <- x }
+func (hT) SendMul(ch chan int, a, b int)   { ch <- a * b }
+func (hT) SendSum(ch chan int, xs ...int) {
+	s := 0
+	for _, x := range xs {
+		s += x
+	}
+	ch <- s
+}
 
 var h hT
 var cur *strings.Builder
@@ -163,7 +172,7 @@ func runC14(c *hx.Ctx) error {
 		}
 		for _, lv := range []string{"src", "vm"} {
 			for s := 0; s < 2; s++ {
-				lines = append(lines, p.protoLine(lv, 3+i%5, 60000, c.R.U64()))
+				lines = append(lines, p.protoLine(lv, 3+i%5, 400000, c.R.U64()))
 				owner = append(owner, i)
 			}
 		}
